@@ -743,6 +743,13 @@ func (h *c26Host) nextAction() c26Action {
 }
 
 func (h *c26Host) ServeHTTP(w http.ResponseWriter, r *http.Request) {
+	if !h.conns.known(r.RemoteAddr) {
+		// not a connection of the transmission under test: other test processes on
+		// this machine probe recycled loopback ports (seen: GET /version)
+		h.conns.foreigner()
+		http.NotFound(w, r)
+		return
+	}
 	rec := c26Req{Host: h.idx, Path: r.URL.EscapedPath(), Keys: r.Header.Values("X-Honeycomb-Team"),
 		Enc: r.Header.Get("Content-Encoding"), CType: r.Header.Get("Content-Type"), ArrivedNs: int64(h.clock.Now().Sub(h.t0))}
 	var raw []byte
@@ -805,6 +812,7 @@ type c26Conns struct {
 	byLocal map[string]net.Conn
 	held    []net.Conn
 	misses  int
+	foreign int
 }
 
 func (c *c26Conns) dial(ctx context.Context, network, addr string) (net.Conn, error) {
@@ -816,6 +824,18 @@ func (c *c26Conns) dial(ctx context.Context, network, addr string) (net.Conn, er
 		c.mu.Unlock()
 	}
 	return conn, err
+}
+
+func (c *c26Conns) known(remote string) bool {
+	c.mu.Lock()
+	defer c.mu.Unlock()
+	return c.byLocal[remote] != nil
+}
+
+func (c *c26Conns) foreigner() {
+	c.mu.Lock()
+	c.foreign++
+	c.mu.Unlock()
 }
 
 func (c *c26Conns) timeout(remote string) bool {
@@ -960,6 +980,7 @@ type c26Outcome struct {
 	respErrors    int64
 	syncLost      string
 	hangFallbacks int
+	foreign       int
 	gridLost      bool
 	overdue       *c26Overdue
 	stopHung      bool
@@ -1166,6 +1187,7 @@ wait:
 		h.srv.Close() // waits for outstanding handlers
 	}
 	out.hangFallbacks = conns.misses
+	out.foreign = conns.foreign
 	out.reqs = lg.snapshot()
 	out.syncLost = r.lost
 	out.gridLost = r.gridLost
@@ -1516,6 +1538,9 @@ func c26Check(run *verifkit.Run, o *c26Outcome) {
 	if o.gridLost {
 		run.Count("cases_dispatcher_tick_not_seen_when_expected", 1)
 	}
+	if o.foreign > 0 {
+		run.Count("foreign_requests_ignored", int64(o.foreign))
+	}
 	if o.hangFallbacks > 0 {
 		run.Count("hang_answers_that_fell_back_to_the_real_timeout", int64(o.hangFallbacks))
 	}
@@ -1694,7 +1719,7 @@ func TestVerif_C26(t *testing.T) {
 	overhead := c26Calibrate(t)
 	run.Count("calibrated_event_overhead_bytes", int64(overhead))
 
-	run.Cases("run", run.N(150, 4000), func(i int, rng *verifkit.Rand) {
+	run.Cases("run", run.N(150, 3000), func(i int, rng *verifkit.Rand) {
 		p := c26Plan_(rng, i, overhead, run.Thorough())
 		started := time.Now()
 		o := c26Execute(t, p)
